@@ -184,3 +184,12 @@ C("C06", "TestC06", P(120), P(600, 16, 2400), pkg="conc", flavour="inst", level=
   level_note="Process kill = no further filesystem call and no further write through open files; descriptors are closed. Power loss is outside (no fsync in the code). " + SCHED,
   assumptions=["crash = process kill at a filesystem-call boundary", SCHED],
   exhaustive_part="all crash points (filesystem-call boundaries) of every generated target operation")
+
+C("C19", "TestC19", P(300, timeout=900), P(2500, 16, 2400), race=True,
+  rule="rapid-generated view (one Reader memory- or file-backed, raw NewMerged over 1..4 tables, or a stack's merged view over files) and 20..120 read operations (SeekRef/SeekLog/RefsFor with bounded iteration, ReadRef); "
+       "the list runs once sequentially, then 2..8 goroutines run drawn (overlapping) slices of it at the same time on the SAME Reader/Merged; the test binary is built with -race (GORACE=halt_on_error=1); "
+       "oracle = identical result per operation and no race-detector report; non-trivial = >=2 goroutines whose slices overlap (the same operations, hence the same blocks, are read concurrently); distinct = hash of the case JSON",
+  technique="property-based testing (rapid) of concurrent vs. sequential reads under the Go race detector (differential + happens-before race detection)",
+  level_text="Generated read workloads; explores workloads, not goroutine schedules: the race detector is happens-before based, so it reports conflicting unsynchronised accesses that were executed, independent of the interleaving hit. " + BOUNDED,
+  level_note="Weakest decision of the set: goroutine schedules are whatever the runtime produced; relies on the race detector's happens-before analysis.",
+  assumptions=["the Go race detector (TSan) observes every conflicting access pair that is executed", DOMAIN])
